@@ -8,6 +8,7 @@ out = []
 out.append("### 0.3 Repaired defects and known findings (from known_findings.jsonl)\n")
 out.append("| id | kind | property (also) | commit | what |\n|---|---|---|---|---|")
 collapsed = 0
+extra = {}
 maxkb = 0
 for line in open(os.path.join(ROOT, "known_findings.jsonl")):
     line = line.strip()
@@ -18,10 +19,18 @@ for line in open(os.path.join(ROOT, "known_findings.jsonl")):
     if m and int(m.group(1)) > 5 and int(m.group(1)) != 75:
         collapsed += 1      # instances of the thorough sweep: one summary row below
         continue
+    mc = re.match(r"K-([CD])(\d+)$", k["id"])
+    if mc and int(mc.group(2)) > 1:
+        extra[mc.group(1)] = extra.get(mc.group(1), 0) + 1
+        continue
     what = k["what"].replace("|", "\\|")
     out.append("| %s | %s | %s %s | %s | %s |" % (k["id"], k["kind"], k["property"], ("(" + ", ".join(k.get("also", [])) + ")") if k.get("also") else "", k.get("commit", "-"), what))
 if collapsed:
     out.append("| K-B6 … K-B%d | known | C10  | - | %%d further instances of the same kind (the planner misses a shorter plan), each identified by its exact (modes, list, input) and found by the thorough sweep; every witness stream was confirmed to decode to the input with the crate's own decoder (tools/mk_c10_known.py); listed one per line in known_findings.jsonl |" % maxkb % collapsed)
+if extra.get("C"):
+    out.append("| K-C2 … K-C%d | known | C10  | - | %d further inputs of the search generator c10d (driver request optdiff) on which the planner model with its own stable sort reaches a smaller symbol than the pinned planner; listed so that the search mode, which only runs when the planner correspondence is broken, reports new inputs only |" % (extra["C"] + 1, extra["C"]))
+if extra.get("D"):
+    out.append("| K-D2 … K-D%d | known | C10  | - | %d further instances of K-D1 (other lengths / the full list / upper case with C40) from the fixed corpus |" % (extra["D"] + 1, extra["D"]))
 out.append("\n### 0.4 Seeded mutations (from seeded/*/meta.json) and the checks that report them\n")
 out.append("Each mutation was produced by a fresh sub-agent that saw only the property text and a scratch worktree; it compiles, passes the 167 tests, and its demonstration fails with it and passes without it (confirmed by tools/seed.py in a scratch worktree). `detected by` lists the quick checks that exit 1 with the mutation applied to /repo. Round 1 (suffix -1, -2) and round 2 (-3, -4; the agents were told what round 1 had changed and asked for a different site or mechanism). In round 2 six of the 38 mutations passed the quick check of their property when first tried (C05-3, C05-4, C06-3, C10-4, C16-3, C16-4: a Reed-Solomon error location exactly one position in front of the block; stray pixels after a complete symbol; a shortcut in the RS encoder's division that needs two non-zero data codewords followed by a zero - the F2-basis vectors of the C06 sweep can never trigger it, because for a single non-zero codeword the remainder's leading coefficient is a Gaussian binomial in 2 and never vanishes; a planner look-ahead threshold that matters for exactly seven digits; a Macro envelope nested in a Macro envelope; a Macro body that itself ends in RS EOT), and three more would have (C08-4 a clock track with inverted phase, C12-3 the builder's own default list, C17-4 bitmaps with more than 32767 vertices) had the generators not been extended after reading the report and before the confirmation run. None of them needed a new model, theorem or oracle - the inputs were missing, including for properties at level proof, whose theorems are about hand-written models and reach the code only through the correspondence. The generators were extended (words whose syndromes are those of errors at locations outside the shortened block; nested envelopes; pixel arrays around valid symbols with stray / missing pixels and wrong widths, gen c05p; whole finder / clock / alignment lines inverted, rotated, filled; data vectors crafted by an independent simulation of the division so that the remainder's leading coefficient vanishes before a zero codeword, sparse vectors; messages made of runs of one character class with every digit-run length 1..10; bitmaps up to 4200 modules wide; every documented entry point - DataMatrix::encode, encode_gs1, DataMatrixBuilder::encode with and without each option, data::encode_data, data::encodation_plan, the SymbolList API - compared with the builder path that the sweeps use, after an llvm-cov run of all quick generators showed that these wrappers were never executed while line coverage of the reachable code was otherwise complete) and all of them are now reported; their meta.json keeps the history.\n")
 out.append("Round 3 (suffix -5, -6: 19 agents with the property text only; suffix -area*7, -area*8: eight agents asked to put both changes into glue code - builder setters, wrappers, option and prefix handling, the SymbolList API, bookkeeping helpers - because that is where round 3 found the blind spots). Of the 38 mutations of the first group, 34 were reported by the quick check of their own property when first tried; four were not (C12-6: `with_macros` rebuilt the builder from `Default` and dropped the caller's symbol list - every sweep called the setters in one fixed order, list before macros, on both the reference path and the compared path; C13-6: `encode_str` widened the caller's mode set with Base 256 on its UTF-8 branch - the string API was only exercised with all modes enabled; C03-5: the triangular solve of the Levinson-Durbin singular case wrong for jump widths m >= 2 - about one random full-weight pattern in 65 000 has such a jump in the small sizes the sweep concentrates on (it was reported by C05 through the debug assertion, not by C03); C10-5: the planner was told that no codeword had been written yet, which matters only behind an FNC1 / macro / ECI codeword - configurations the C10 oracle skipped; reported by C18), and one was reported without a failing input (C09-6: a recurrence of the locator left unchecked in the singular case; the model differed, but no word of the sweep made the decoder accept a non-codeword). Again no model, theorem or oracle was missing - inputs were. Added: the builder's four setters applied in every order, each preceded by a decoy value (gen c12 for the symbol pick, and as a further compared entry point in every encoder sweep); `DataMatrixBuilder::encode_str` / `DataMatrix::encode_str` under every option combination of the sweeps, compared with `encode_eci` on the same builder, and random CJK / kana / Latin-1 strings under random mode subsets in gen c14; error patterns within the radius whose linear complexity profile jumps by three or more, found by rejection sampling with an independent Berlekamp-Massey in the generator (430 000 patterns tried per quick run, 16 used, each on the zero and on a random codeword); syndromes of v < t genuine errors in which exactly one recurrence window is violated (window start v .. k-v-1, with emphasis on t-1, t and k-v-1: 990 words per quick run) - these give C09-6 199 concrete words on which Ok is answered for a non-codeword; the C10 search with an FNC1 or Macro header codeword in front (DM.Spec.Opt.searchH), which also surfaced three genuine sub-optimal encodings behind FNC1 (K-B220..222).\n")
